@@ -42,14 +42,24 @@ class ATL(tlo.TraitList, ListModel):
 
 @contextlib.contextmanager
 def sym_env():
+    import sys
+    import traits.observation._list_change_event    # noqa: F401
     had_slice = "slice" in tlo.__dict__
     old_slice = tlo.__dict__.get("slice")
     old_op = tlo.operator
     tlo.slice = envmodels.SliceShadow
     tlo.operator = OpModel()
+    # the event factories / observers of traits.observation receive the (model) slice objects as well: a type test on them there
+    # must answer as it does for built-in slices
+    obs_mods = [m for n_, m in list(sys.modules.items()) if n_.startswith("traits.observation.") and m is not None
+                and "slice" not in m.__dict__]
+    for m in obs_mods:
+        m.slice = envmodels.SliceShadow
     try:
         yield
     finally:
+        for m in obs_mods:
+            del m.slice
         tlo.operator = old_op
         if had_slice:
             tlo.slice = old_slice
@@ -430,6 +440,18 @@ def obligations(tier, build):
                 for op in ("extend", "iadd"):
                     obs.append(Obligation("owned/%s/n=%d/m=%d" % (op, n, m), make_harness(op, n, m, factory=fac, twins=True),
                                           bounds={"n": n, "m": m}, leverage="choice feasibility only", **ocommon))
+    if tier == "quick":
+        # extended slices that select two or more items need a list of three (the event factories of observe see a slice index)
+        for mask in slice_parts():
+            obs.append(Obligation("owned/del_slice/n=3/" + part_name(mask), make_harness("del_slice", 3, mask=mask, factory=fac, twins=True),
+                                  bounds={"list length n": 3, "index / slice fields / factor": "unbounded Int (or None)",
+                                          "container": "TraitListObject owned by a HasTraits object; 1 legacy + 2 observe handlers"},
+                                  leverage="all integer arguments", **ocommon))
+        for mask in [p_ for p_ in slice_parts() if (p_ & 7) in (4, 7)]:
+            obs.append(Obligation("owned/set_slice/n=3/m=2/" + part_name(mask), make_harness("set_slice", 3, 2, mask=mask, factory=fac, twins=True),
+                                  bounds={"list length n": 3, "replacement length m": 2, "start/stop/step": "unbounded Int or None",
+                                          "container": "TraitListObject owned by a HasTraits object; 1 legacy + 2 observe handlers"},
+                                  leverage="all slice fields", max_paths=60000, **ocommon))
     for label, fac_ in (("owned-anytrait", owners.list_factory(route="anytrait")), ("owned-added", owners.list_factory(added=True)),
                         ("owned-added-anytrait", owners.list_factory(route="anytrait", added=True))):
         for n in (0, 1, 2):
